@@ -90,6 +90,15 @@ def step (s : St) (toks : List String) : St × String :=
         let (r, es) := stackRes key { hdr := h, status := st }
         (s, s!"{showErrs es} {r.status} {showHeader r.hdr}")) s
     | _, _ => (s, "bad-op")
+  | ["e2e", name, bd, sch, host, url, remote, st, h, oh] =>
+    match parseEnv "1" "1" name bd sch host url remote, st.toNat?, parseHeader h, parseHeader oh with
+    | some env, some st, some h, some oh =>
+      guarded (h ++ oh) [env.name, env.boundary, env.scheme, env.host, env.url, env.remote] (fun _ =>
+        let x := exchange env h st oh
+        let req := if x.calls == 0 then "-" else showErrs x.reqErrs
+        let seen := if x.calls == 0 then "-" else showHeader x.seen
+        (s, s!"e2e calls={x.calls} req={req} status={x.status} res={showErrs x.resErrs} seen={seen} reshdr={showHeader (delete x.resHdr kCL)}")) s
+    | _, _, _, _ => (s, "bad-op")
   -- stdlib models
   | ["hdr.canon", k] => (s, match unhex k with | some k => hex (canonKey k) | none => "bad-op")
   | ["net.shp", a] => (s, match unhex a with
